@@ -108,3 +108,60 @@ Proof. vm_compute. reflexivity. Qed.
 Example c06_example_none :
   resolved [0; 1; 2; 3] ex_pop 0 (mkPoint false (TPtr 0) SByType None false) = FErr.
 Proof. vm_compute. reflexivity. Qed.
+
+(* ---- what the container writes into the fields (run level) ------------------------------------------------
+   Proofs/FactoryWiring.v connects the resolution functions above to the state after a successful start:
+   for every published component (created with the complete property pipeline: side conditions
+   [stages_ok_b] — the built-in processors' sorted sequence is props, value, wire, func, further-matching —
+   and [procs_pointless_b], both re-evaluated on the facts of every run), every unnamed point holds exactly
+   the proposed components, or is left empty when the published object of a proposed component (a proxy)
+   cannot be assigned to an optional point. *)
+From IocVerif Require Import Model.Factory Model.App Proofs.FactoryWiring Proofs.FactoryNoPanic.
+
+Theorem c06_wired_slice : forall s st h c k p,
+  run repaired s = Ok st ->
+  procs_pointless_b (normalise repaired s) = true -> stages_ok_b (normalise repaired s) = true ->
+  alookup h (L1 (reg st)) <> None -> get_comp (s_pop s) h = Some c -> nth_error (c_points c) k = Some p ->
+  unnamed p -> pt_target p <> TOther -> pt_slice p = true ->
+  (* every compatible, admitted component except the holder, exactly once, in name order ... *)
+  (map owner (field_of st h k) = providers_of (names_of (s_pop s)) (s_pop s) h p
+   /\ forallb (fun v => assignable (s_pop s) v (pt_target p)) (field_of st h k) = true)
+  (* ... or nothing at all, which is possible only for an optional point *)
+  \/ (field_of st h k = [] /\ (pt_required p = false \/ providers_of (names_of (s_pop s)) (s_pop s) h p = [])).
+Proof.
+  intros s st h c k p H Hpp Hso Hpub Hc Hk Hu Ht Hsl.
+  destruct (run_core_wired repaired (normalise repaired s) st eq_refl eq_refl eq_refl eq_refl Hpp Hso H h c k p Hpub Hc Hk)
+    as [x [Hx Hw]].
+  cbn [normalise s_pop s_oracle enum_order fix_c10 repaired] in Hx, Hw.
+  unfold further_one in Hx. fold (resolved (names_of (s_pop s)) (s_pop s) h p) in Hx.
+  rewrite (resolved_unnamed _ _ _ _ Hu Ht), Hsl in Hx.
+  destruct (providers_of (names_of (s_pop s)) (s_pop s) h p) as [|a t] eqn:E.
+  - destruct (pt_required p); [discriminate|]. injection Hx as <-. unfold wired_point in Hw. cbn in Hw.
+    right. split; [exact Hw|right; reflexivity].
+  - cbv zeta in Hx. injection Hx as <-. unfold wired_point in Hw. cbn [map remove_nil] in Hw.
+    rewrite remove_nil_map_Some, Hsl in Hw.
+    destruct Hw as [[Ho Ha]|[Hf Hr]]; [left; split; assumption|right; split; [exact Hf|left; exact Hr]].
+Qed.
+
+Theorem c06_wired_single : forall s st h c k p,
+  run repaired s = Ok st ->
+  procs_pointless_b (normalise repaired s) = true -> stages_ok_b (normalise repaired s) = true ->
+  alookup h (L1 (reg st)) <> None -> get_comp (s_pop s) h = Some c -> nth_error (c_points c) k = Some p ->
+  unnamed p -> pt_target p <> TOther -> pt_slice p = false ->
+  (exists n, In n (providers_of (names_of (s_pop s)) (s_pop s) h p) /\ map owner (field_of st h k) = [n])
+  \/ (field_of st h k = [] /\ (pt_required p = false \/ providers_of (names_of (s_pop s)) (s_pop s) h p = [])).
+Proof.
+  intros s st h c k p H Hpp Hso Hpub Hc Hk Hu Ht Hsl.
+  destruct (run_core_wired repaired (normalise repaired s) st eq_refl eq_refl eq_refl eq_refl Hpp Hso H h c k p Hpub Hc Hk)
+    as [x [Hx Hw]].
+  cbn [normalise s_pop s_oracle enum_order fix_c10 repaired] in Hx, Hw.
+  unfold further_one in Hx. fold (resolved (names_of (s_pop s)) (s_pop s) h p) in Hx.
+  destruct (resolved (names_of (s_pop s)) (s_pop s) h p) as [l|] eqn:Er.
+  - destruct (c06_single _ _ _ _ _ Hu Ht Hsl Er) as [n [-> Hin]]. injection Hx as <-.
+    unfold wired_point in Hw. cbn [map remove_nil] in Hw. rewrite Hsl in Hw. cbn [firstn] in Hw.
+    destruct Hw as [[Ho _]|[Hf Hr]]; [left; exists n; split; assumption|right; split; [exact Hf|left; exact Hr]].
+  - assert (Hnone : providers_of (names_of (s_pop s)) (s_pop s) h p = []).
+    { rewrite (resolved_unnamed _ _ _ _ Hu Ht) in Er. destruct (providers_of _ _ _ _); [reflexivity|discriminate]. }
+    destruct (pt_required p); [discriminate|]. injection Hx as <-. unfold wired_point in Hw. cbn in Hw.
+    right. split; [exact Hw|right; exact Hnone].
+Qed.
